@@ -97,7 +97,6 @@ def hasTok (f : Format) (t : Token) : Bool := f.items.any (fun it => it.token ==
    the recorded class. -/
 
 def isNameTok (t : Token) : Bool := t == .Weekday || t == .WeekdayShort || t == .MonthName || t == .MonthNameShort
-def isMonthTok (t : Token) : Bool := t == .Month || t == .MonthName || t == .MonthNameShort
 
 /-- the letters of the texts a name token can print -/
 def nameLetters (t : Token) : List Nat :=
@@ -111,25 +110,23 @@ def nameLetters (t : Token) : List Nat :=
 /-- the second separator `b` of an item is harmless given the item that follows:
     before a numeric token it must not be numeric (it would be read as a digit); before a name token
     it is swallowed into the name, which only survives `trim` — unless it equals that token's own
-    first separator (then it is skipped); before a final `%T` anything goes -/
+    first separator (then it is skipped); before the final `%T` it is stripped from the front of the scale
+    text, so it must not be the first letter of `UTC` -/
 def sep2Ok (b : Nat) (next : Item) : Bool :=
-  if next.token == .Timescale then true
+  if next.token == .Timescale then b != 85
   else if next.token.isNumeric then !isNum b
   else isWs b || next.sep1 == some b
 
-/-- The class of plain full-date formats that parse back (derivation in INTEGRATION.md), item by item.
-    `loose` = the NEXT item is the last one and is a name token or `%T`: such a final token is never
-    stored by `Format::parse` (the loop breaks before), so whatever precedes it only has to end the
-    current token.  `%z` counts as a numeric token (since fix 77ab25e its hours and minutes are read).
+/-- The class of plain full-date formats that parse back for UTC epochs (code at 09b7567: a final name or
+    `%T` is read, D39; the sign of `%z` needs a digit after it, D40), item by item:
     * a numeric token (`%Y %m %d %H %M %S %f %j %z`) that is not last has a first separator, which is not
-      numeric (`char::is_numeric`) — or no separator at all when `loose` or when the next token is `%z`
-      (its sign ends the digits);
+      numeric (`char::is_numeric`) — or no separator at all when the next token is a name, `%T` or `%z`
+      (the letter / sign ends the digits and is kept for the next field);
     * a name token (`%A %a %B %b`) that is not last has a first separator, which is not a letter of a
       text the token can print;
-    * a second separator satisfies `sep2Ok` w.r.t. the next item (anything when `loose`), and is not `-`
-      before `%z` (it would be read as the sign) unless the offset is zero;
+    * a second separator satisfies `sep2Ok` w.r.t. the next item;
     * `%T` only in the last place. -/
-def backOkGo (offZero : Bool) : List Item → Bool
+def backOkGo : List Item → Bool
   | [] => true
   | [_] => true
   | it :: next :: rest =>
@@ -137,24 +134,14 @@ def backOkGo (offZero : Bool) : List Item → Bool
      else if it.token.isNumeric then
        (match it.sep1 with
         | some a => !isNum a
-        | none => (rest.isEmpty && !next.token.isNumeric) || next.token == .OffsetHours)
+        | none => !next.token.isNumeric || next.token == .OffsetHours)
      else (match it.sep1 with | some a => !(nameLetters it.token).contains a | none => false))
     && (match it.sep2 with
-        | some b => (rest.isEmpty && !next.token.isNumeric) ||
-                    (sep2Ok b next && (next.token != .OffsetHours || b != 45 || offZero))
+        | some b => sep2Ok b next
         | none => true)
-    && backOkGo offZero (next :: rest)
+    && backOkGo (next :: rest)
 
-/-- … and globally: a trailing month NAME is never stored, so the month must also come from an
-    earlier token (or the date from `%j`) -/
-def backOk (f : Format) (offZero : Bool) : Bool :=
-  backOkGo offZero f.items &&
-  (match f.items.getLast? with
-   | some l =>
-     (if l.token == .MonthName || l.token == .MonthNameShort then
-        hasTok f .DayOfYearInteger || f.items.dropLast.any (fun it => isMonthTok it.token)
-      else true)
-   | none => true)
+def backOk (f : Format) (_offZero : Bool) : Bool := backOkGo f.items
 
 /-! ### spec side -/
 
@@ -230,30 +217,81 @@ def backOp (op : String) (f : Format) (items : Option (List Spec.Efmt.SItem)) (e
   let offInDomain : Bool := match off with
     | some o => decide (sval o % 60000000000 = 0 ∧ -86340000000000 ≤ sval o ∧ sval o ≤ 86340000000000)
     | none => true
-  let inDomain := decide (e.ts = TS.UTC) && offInDomain && (match items with | some its => Spec.Efmt.backDomain its | none => false)
+  let full : Bool := offInDomain && (match items with | some its => Spec.Efmt.backDomain its | none => false)
+  let inDomain := decide (e.ts = TS.UTC) && full
+  -- outside the letter of the clause (non-UTC epochs): when the format prints the time scale the text still
+  -- determines the epoch, so the result must be the epoch or an error, never another instant
+  let hasT : Bool := match items with | some its => its.any (fun it => it.letter == 84) | none => false
+  let nearDomain := !inDomain && full && hasT
   let sp :=
     if inDomain then
       (match impl with
        | .ok [r] => if r == showEpoch e.dur e.ts then "ok" else "FAIL:other_epoch"
        | .ok _ => "FAIL:decode"
        | .other w => "FAIL:" ++ w)
+    else if nearDomain then
+      (match impl with
+       | .ok [r] => if r == showEpoch e.dur e.ts then "ok" else "FAIL:other_epoch"
+       | .ok _ => "FAIL:decode"
+       | .other "err" => "ok"
+       | .other w => "FAIL:" ++ w)
     else noPanic impl
   let offZero : Bool := match off with | some o => sval o == 0 | none => true
-  { model := if hasTok f .DayOfYear then "unmodelled" else showResEp m, spec := sp,
-    cls := tagsOf [("D25", !backOk f offZero)],
-    branch := op ++ ":" ++ (if inDomain then "domain" else "open") ++ ":" ++ (if backOk f offZero then "class_ok" else "class_D25")
+  let wrong : Bool := match impl with | .ok _ => true | _ => false
+  let cls :=
+    if nearDomain then
+      (if backOk f offZero then "-" else if wrong then "D25w" else "D25")
+    else if backOk f offZero then "-"
+    else if wrong then "D25w" else "D25"
+  { model := if hasTok f .DayOfYear then "unmodelled" else showResEp m, spec := sp, cls := cls,
+    branch := op ++ ":" ++ (if inDomain then "domain" else if nearDomain then "near" else "open") ++ ":" ++
+              (if backOk f offZero then "class_ok" else "class_D25")
               ++ ":" ++ resTag m ++ (if off.isSome then ":tz" else "") }
 
-/-- the totality stream: outcome (and value, when modelled) of a parse -/
-def parseOp (op : String) (fr : Res Format) (s : List Nat) (impl : Impl) : Ans :=
+/-- Feb 30/31 of a leap year in the text (recorded defect D10 of `is_gregorian_valid`, pinned by the suite) -/
+def d10Text (F : Spec.Efmt.TFields) : Bool :=
+  match F.y, F.mo, F.d with
+  | some y, some m, some d => Cal.d10class y m d
+  | _, _, _ => false
+
+/-- the (format, text) stream: outcome (and value, when modelled) of a parse; the spec reads the text with its
+    own strict grammar and demands an error for out-of-range fields, a weekday that is not the weekday of the
+    date, and the time scale written in the text -/
+def parseOp (op : String) (fr : Res Format) (items : Option (List Spec.Efmt.SItem)) (s : List Nat) (impl : Impl) : Ans :=
   match fr with
   | .ok f =>
     let m := formatParse oracles f s
     -- `%J`: the parsed value is not modelled, so neither is an `ok` result nor the weekday comparison
     let valueOpen : Bool := hasTok f .DayOfYear &&
       (match m with | .ok _ => true | .err => hasTok f .Weekday || hasTok f .WeekdayShort | .panic => false)
-    { model := if valueOpen then "unmodelled" else showResEp m, spec := noPanic impl,
+    let tf : Option Spec.Efmt.TFields := match items with | some its => Spec.Efmt.readText its s | none => none
+    let clause : Option String := match tf with | some F => Spec.Efmt.mustRejectText F | none => none
+    let implScale : Option String := match impl with
+      | .ok [r] => (match r.splitOn ":" with | [_, _, ts] => some ts | _ => none)
+      | _ => none
+    let sp :=
+      match noPanic impl with
+      | "ok" =>
+        (match clause, impl with
+         | some c, .ok _ => "FAIL:accepted_" ++ c
+         | _, _ =>
+           match tf, implScale with
+           | some F, some ts => (match F.scale with
+               | some n => if n == ts then "ok" else "FAIL:scale_of_text_ignored"
+               | none => "ok")
+           | _, _ => "ok")
+      | v => v
+    let failing := sp.startsWith "FAIL:accepted" || sp == "FAIL:scale_of_text_ignored"
+    let cls :=
+      if !failing then "-"
+      else if (match tf with | some F => d10Text F | none => false) && clause == some "invalid_date" then "D10"
+      else "-"
+    { model := if valueOpen then "unmodelled" else showResEp m, spec := sp, cls := cls,
       branch := op ++ ":" ++ resTag m ++
+                (match tf, clause with
+                 | some _, some c => ":must_reject:" ++ c
+                 | some _, none => ":read"
+                 | none, _ => "") ++
                 (if s.any (· ≥ 128) then ":nonascii" else "") ++ (if f.items.length ≥ 16 then ":16tok" else "") }
   | .err => { model := "err", spec := noPanic impl, branch := op ++ ":bad_format" }
   | .panic => { model := "panic", spec := noPanic impl, branch := op ++ ":format_panic" }
@@ -277,12 +315,15 @@ def handle (op : String) (args : List String) (impl : Impl) : Option Ans :=
            branch := op ++ ":" ++ resTag m ++ (if (specItems s).isSome then ":domain" else ":open") }
   | "const_debug", [n] => do
     let f ← constByName? n
-    let sp := if hasDocString n then
-        (match Spec.Efmt.documentedItems n, impl with
-         | some its, .ok [x] => if codesOfHex x == some (Spec.Efmt.debugText its) then "ok" else "FAIL:const_differs_from_doc"
-         | _, _ => "FAIL:decode")
-      else noPanic impl
-    pure { model := "ok " ++ hexOfCodes f.debug, spec := sp, branch := "const_debug:" ++ n }
+    -- all nine constants are judged against the string of the documentation: the rustdoc / suite string
+    -- where there is one, else the string the constant's doc comment describes (`Spec.Efmt.documented`)
+    let sp :=
+      (match Spec.Efmt.documentedItems n, impl with
+       | some its, .ok [x] => if codesOfHex x == some (Spec.Efmt.debugText its) then "ok" else "FAIL:const_differs_from_doc"
+       | _, .other w => "FAIL:" ++ w
+       | _, _ => "FAIL:decode")
+    pure { model := "ok " ++ hexOfCodes f.debug, spec := sp,
+           branch := "const_debug:" ++ n ++ (if hasDocString n then ":doc_string" else ":doc_comment") }
   | "format", h :: e :: rest => do
     let s ← codesOfHex h
     let e ← parseEp? e
@@ -347,15 +388,15 @@ def handle (op : String) (args : List String) (impl : Impl) : Option Ans :=
   | "p_fmtparse", [h, i] => do
     let s ← codesOfHex h
     let inp ← codesOfHex i
-    pure (parseOp op (formatFromStr s) inp impl)
+    pure (parseOp op (formatFromStr s) (specItems s) inp impl)
   | "p_fmtstr", [i, h] => do
     let s ← codesOfHex h
     let inp ← codesOfHex i
-    pure (parseOp op (formatFromStr s) inp impl)
+    pure (parseOp op (formatFromStr s) (specItems s) inp impl)
   | "p_constparse", [n, i] => do
     let f ← constByName? n
     let inp ← codesOfHex i
-    pure (parseOp op (.ok f) inp impl)
+    pure (parseOp op (.ok f) (Spec.Efmt.documentedItems n) inp impl)
   | _, _ => none
 
 end Hifi.Drive.Efmt
